@@ -46,6 +46,12 @@ FIXED = [
      "thread A samples, thread B samples later and records first: A's numbers look like wraps, every later result is inflated"),
     ("C11", ["unix_path_with_space_lost"], "fix: net_connections() returned an empty laddr for UNIX sockets", "UNIX socket bound to a path with a space"),
     ("C11", ["unix_shared_between_processes_holder_lost"], "fix: net_connections() reported only one holder", "UNIX socket inherited through fork()"),
+    ("C11", ["unix_path_with_space_lost:unix_name_with_leading_whitespace", "laddr_wrong:unix:unix_name_with_leading_whitespace"],
+     "fix: net_connections() dropped leading white space of a UNIX socket path", "UNIX socket bound to ' lead' / '\\tTab' / ' '"),
+    ("C11", ["laddr_wrong:unix:unix_name_with_carriage_return", "row_unexpected:unix:unix_name_with_carriage_return",
+             "exception:RuntimeError:unix_name_with_carriage_return"],
+     "fix: a carriage return in a UNIX socket path broke net_connections()",
+     "UNIX socket bound to 'a\\rb' -> 'a\\r'; bound to 'a\\r b c' -> RuntimeError('malformed line') for everybody"),
     ("C12", ["cmdline_cr_translated_to_lf", "environ_cr_translated_to_lf"], "fix: cmdline() and environ() turned carriage returns",
      "argument / variable containing \\r"),
     ("C13", ["memory_maps_path_wrong:trailing_whitespace_stripped"], "fix: memory_maps() stripped trailing whitespace", "mapped file whose name ends in a space"),
